@@ -161,7 +161,7 @@ PENDING_REASON = "check not built yet in this session (framework under construct
 
 
 SRC_TIE = {
-    "C01": " Source-text tie (C01Src): Sequence.kappa's zero guard / reporting band and Sequence.sigma, translated from the live source on every run, equal kappaOf / sigmaOf for all arguments.",
+    "C01": " Shortest inputs (C01Short): for EVERY sequence of at most five residues delta = 0, delta-max = 0 and kappa = -1. Source-text tie (C01Src): Sequence.kappa's zero guard / reporting band and Sequence.sigma, translated from the live source on every run, equal kappaOf / sigmaOf for all arguments.",
     "C02": " Source-text tie (C02Src): the body of deltaForm's loop over blobs and Sequence.delta, translated from the live source on every run, are the model's summand (sigma - sigma_blob)^2/nblobs and (deltaForm 5 + deltaForm 6)/2 for all arguments.",
     "C04": " Source-text tie (C04Src): the no-pH forms of Fplus, Fminus, FCR, NCPR, FER, mean_net_charge translated from the live source equal the model's fractions, and FCR = f+ + f-, NCPR = f+ - f-, |NCPR| <= FCR <= 1 hold of the source text for all counts.",
     "C08": " Source-text tie (C08Src): Sequence.phasePlotRegion translated from the live source equals regionCode for all rational arguments.",
